@@ -279,6 +279,11 @@ func (s *scheduler) pick(me *thread) {
 func (s *scheduler) spawn(pos token.Pos, fn value, args []value) {
 	parent := s.cur
 	t := &thread{id: len(s.threads), resume: make(chan struct{}, 1)}
+	// until its first synchronisation operation a new thread only runs local code:
+	// its start commutes with every other thread's operation (data races are
+	// reported separately by the happens-before detector)
+	t.objs = []interface{}{t}
+	t.what = "start"
 	t.vc = parent.vc.clone()
 	for len(t.vc) <= t.id {
 		t.vc = append(t.vc, 0)
